@@ -13,8 +13,10 @@ Strings(n) == IF n = 0 THEN {<<>>} ELSE LET prev == Strings(n - 1) IN prev \cup 
 \* numbers in increasing order with their rank: 0.04 0.041 0.5 0.6 0.7 0.701 0.704 1 (neighbours that differ only in the third
 \* decimal) - and other spellings of 0.7 and 1 (0.70 .7 00.7 0.7000000001 (the same 32-bit float) 1.0 01)
 Nums == << <<48, 46, 48, 52>>, <<48, 46, 48, 52, 49>>, <<48, 46, 53>>, <<48, 46, 54>>, <<48, 46, 55>>, <<48, 46, 55, 48, 49>>, <<48, 46, 55, 48, 52>>, <<49>>,
-           <<48, 46, 55, 48>>, <<46, 55>>, <<48, 48, 46, 55>>, <<48, 46, 55, 48, 48, 48, 48, 48, 48, 48, 48, 49>>, <<49, 46, 48>>, <<48, 49>> >>
-NumRank == <<1, 2, 3, 4, 5, 6, 7, 8, 5, 5, 5, 5, 8, 8>>
+           <<48, 46, 55, 48>>, <<46, 55>>, <<48, 48, 46, 55>>, <<48, 46, 55, 48, 48, 48, 48, 48, 48, 48, 48, 49>>, <<49, 46, 48>>, <<48, 49>>,
+           \* the 32-bit float next to 0.7, and a number beyond the range of a 32-bit float (infinite once parsed)
+           <<48, 46, 55, 48, 48, 48, 48, 48, 48, 53>>, [i \in 1..40 |-> IF i = 1 THEN 49 ELSE 48] >>
+NumRank == <<1, 2, 3, 4, 5, 7, 8, 9, 5, 5, 5, 5, 9, 9, 6, 10>>
 Letters == <<65, 69, 90, 101>>                                                     \* A E Z e(=E)
 Patches == <<-1, 0, 1, 12>>
 RECURSIVE Digits(_)
